@@ -72,6 +72,12 @@ def dec(t):
         return bytes.fromhex(t['y'])
     if 'z' in t:
         return bytes(t['z'])
+    if 't' in t:                    # the sequence type of a list-shaped value: tuple instead of list
+        return tuple(dec(x) for x in t['t'])
+    if 'ya' in t:
+        return bytearray(bytes.fromhex(t['ya']))
+    if 'ym' in t:
+        return memoryview(bytes.fromhex(t['ym']))
     if 'o' in t:
         return {'dict': {'a': 1}, 'tuple3': (1, 2, 3), 'tuple0': (), 'complex': 1j, 'set': {1}, 'object': object(),
                 'emptydict': {}, 'emptyset': set(), 'bytearray0': bytearray()}[t['o']]
@@ -130,17 +136,23 @@ def parse_packet(dgram):
         return ['err', err_code(e), type(e).__name__]
 
 
-def heads(itf, send_time, v, out):
+def heads(itf, send_time, v, out, pos='elem'):
     """timetags the real _get_timetag gives for every list head that is a number or None
-    (DFS preorder) -- the model takes them as given (C07 verifies their computation)."""
-    if isinstance(v, list):
-        if v and (v[0] is None or isinstance(v[0], (int, float))):
+    (DFS preorder) -- the model takes them as given (C07 verifies their computation).
+    Lists are traversed everywhere; tuples only where the code indexes them like lists (bundle
+    elements), not where they are opaque message arguments -- the same rule as harness/props/C06.py."""
+    if isinstance(v, list) or (isinstance(v, tuple) and pos == 'elem'):
+        bundle_shaped = bool(v) and (v[0] is None or isinstance(v[0], (int, float)))
+        if bundle_shaped:
             try:
                 out.append(str(int(itf._get_timetag(send_time, v[0]))))
             except Exception as e:
                 out.append('0')
-        for x in v:
-            heads(itf, send_time, x, out)
+        for k, x in enumerate(v):
+            child = 'elem' if (bundle_shaped and k >= 1) else 'arg'
+            if bundle_shaped and pos == 'arg' and k == 1 and isinstance(x, tuple):
+                child = 'arg'           # _build_msg wants a list there: the tuple is opaque
+            heads(itf, send_time, x, out, child)
 
 
 def snapshot(v):
@@ -252,7 +264,9 @@ def enc_tree(v):
     if isinstance(v, (bytes, bytearray, memoryview)):
         b = bytes(v)
         return {'z': len(b)} if len(b) >= 24 and not any(b) else {'y': b.hex()}
-    if isinstance(v, (list, tuple)):
+    if isinstance(v, tuple):
+        return {'t': [enc_tree(x) for x in v]}
+    if isinstance(v, list):
         return [enc_tree(x) for x in v]
     return {'o': 'object'}
 
